@@ -96,13 +96,16 @@ def classify_coord_pred(test, var_names=None):
     if isinstance(t, ast.Call) and dotted(t.func) == "all" and len(t.args) == 1 and isinstance(t.args[0], ast.GeneratorExp):
         g = t.args[0]
         if len(g.generators) == 1 and not g.generators[0].ifs and isinstance(g.elt, ast.Compare) and len(g.elt.ops) == 1 \
-                and isinstance(g.elt.ops[0], ast.Eq) and isinstance(g.generators[0].target, ast.Name):
+                and isinstance(g.elt.ops[0], (ast.Eq, ast.NotEq)) and isinstance(g.generators[0].target, ast.Name):
             v = g.generators[0].target.id
             l, r = g.elt.left, g.elt.comparators[0]
             if isinstance(r, ast.Name) and isinstance(l, ast.Constant):
                 l, r = r, l
             if isinstance(l, ast.Name) and l.id == v and isinstance(r, ast.Constant) and r.value in ("cartesian", "spherical"):
-                return "all-" + r.value
+                if isinstance(g.elt.ops[0], ast.Eq):
+                    return "all-" + r.value
+                # a shell's coord_type is one of the two (validated by the shell class): "none is X" means "all are the other one"
+                return "all-" + ("cartesian" if r.value == "spherical" else "spherical")
         return None
     if isinstance(t, ast.Call) and dotted(t.func) == "isinstance" and len(t.args) == 2 and ast.unparse(t.args[1]) in ("(list, tuple)", "(tuple, list)"):
         return "is-sequence"
@@ -372,3 +375,53 @@ def check_wrapper_inputs(repo, f, R, rule="INPUTS", ignore=()):
                 f"`{name}` is replaced on some path of {f.name} before it is used: the result would be that of other inputs",
                 where=f.where(st), expected=f"{name} used as given", found=str(val)[:80])
     R.ok(rule, f.site, f"{f.name}: parameters {sorted(names)} are used as given ({len(rebound)} value-preserving rebinding(s))")
+
+
+
+def check_documented_defaults(f, R, rule="DEFAULT"):
+    """The numpydoc entry of a parameter states its default ("Default value is 1.", "Default is no transformation."): the signature
+    must agree - a caller that relies on the documented default otherwise gets the result for another value."""
+    import re
+    doc = ast.get_docstring(f.node) or ""
+    a = f.node.args
+    pos = a.posonlyargs + a.args
+    defaults = dict(zip([x.arg for x in pos][len(pos) - len(a.defaults):], a.defaults))
+    defaults.update({x.arg: d for x, d in zip(a.kwonlyargs, a.kw_defaults) if d is not None})
+    n = 0
+    lines = doc.split("\n")
+    cur = None
+    for ln in lines:
+        m = re.match(r"^(\w+) : ", ln)
+        if m:
+            cur = m.group(1)
+            continue
+        if cur is None or cur not in defaults:
+            continue
+        stated = None
+        m2 = re.search(r"Default value is ([^\s,]+?)[.,]?(\s|$)", ln.strip())
+        if m2:
+            txt = m2.group(1).rstrip(".")
+            if re.match(r"^-?\d+\.$", m2.group(1)):
+                txt = m2.group(1)
+            try:
+                stated = ("lit", ast.literal_eval(txt))
+            except Exception:
+                try:
+                    stated = ("lit", ast.literal_eval(txt.rstrip(".")))
+                except Exception:
+                    stated = None
+        elif re.search(r"Default is no transformation", ln):
+            stated = ("lit", None)
+        if stated is None:
+            continue
+        try:
+            actual = ast.literal_eval(defaults[cur])
+        except Exception:
+            continue
+        n += 1
+        same = (actual == stated[1]) and (type(actual) is type(stated[1]) or isinstance(actual, (int, float)) and isinstance(stated[1], (int, float))
+                                          and not isinstance(actual, bool) and not isinstance(stated[1], bool))
+        R.check(same, rule, f.site, f"default of `{cur}`", f"the documentation of {f.name} states the default {stated[1]!r} for `{cur}`, the signature "
+                f"says {actual!r}: calls that rely on the documented default compute something else", where=f.where(), expected=repr(stated[1]), found=repr(actual))
+        cur = None
+    return n
